@@ -91,7 +91,10 @@ class Mapping:
                 continue
             out.append(_kbline(k, self.kb[k]))
         if self.thp is not None:
-            out.append(b"THPeligible:    %d" % (1 if self.thp else 0))
+            if self.thp == "tab":
+                out.append(b"THPeligible:\t\t0")        # (5.x releases separate this one key from its value with tabs)
+            else:
+                out.append(b"THPeligible:    %d" % (1 if self.thp else 0))
         if self.pkey is not None:
             out.append(b"ProtectionKey:  %8d" % self.pkey)
         if self.vmflags is not None:
